@@ -103,6 +103,23 @@ Theorem C06_state_id_bumps :
 Proof. exact state_id_bumps. Qed.
 Print Assumptions C06_state_id_bumps.
 
+(* T5: two datasets (MultiDatasetTCLLHRatio over two single-dataset functions,
+   each with its own trial data manager, PDFs and caches), with or without the
+   ns-profile function NsProfileMultiDatasetTCLLHRatio and its remembered
+   null-hypothesis value _logL_0: for EVERY history of {initialise trial (both
+   datasets), evaluate, change source, second derivative} every observation
+   equals that of the cache-free specification `msrun`, in which the
+   null-hypothesis value is recomputed from the new trial by every
+   initialisation.  (Configurations without a plain global-fit-parameter field.) *)
+Theorem C06_multi_refines_full :
+  forall (W : world) (C : cfg) (MW : mworld W) (MC : mcfg),
+    (forall x y, glow W x = glow W y -> gup W x = gup W y) ->
+    c_gfp_srcevt C || (c_ngfp C <=? 0) = true ->
+    forall (s0 : src W) (ops : list (mop W)),
+      mobservations W C MW MC (minit W C MW s0) ops = msrun W C MW MC (msinit W C MW s0) ops.
+Proof. exact mrefines. Qed.
+Print Assumptions C06_multi_refines_full.
+
 (* The two guards of T2 / T3 are necessary for the code as it is: *)
 Theorem C06_ns_grad2_after_failed_evaluate_refuted :
   exists (W : world) (C : cfg) (s0 : src W) (d : data W) (ns x ns' x' n : Z),
@@ -166,3 +183,19 @@ Example C06_nonvacuous_gfp :
      [TG; TF 200; TP 200; TF 300; TP 300; TB]; []; [TG; TF 200; TP 200; TF 300; TP 300; TB]] /\
   wseq W false (ops ++ [ChangeSource W 8; InitTrial W 1; Evaluate W 5 250]) = true.
 Proof. repeat split; vm_compute; reflexivity. Qed.
+
+(* two datasets with the ns-profile function and mean_n_sig_0 = 3: the second
+   trial's evaluation equals the one on freshly built objects and differs
+   from the first trial's *)
+Example C06_nonvacuous_profile :
+  let W := wfree 100 100 100 400 in
+  let C := mkcfg 0 0 0 true false 0 false in
+  let MW := mwfree 100 100 100 400 in
+  let MC := mkmcfg true 3 250 in
+  map (fun r => snd r) (mrun W C MW MC (minit W C MW 7) [MInit W 1 2; MEval W 5 250; MInit W 3 4; MEval W 5 250; MNs2 W 5])
+    = [(0, 0); (0, 0); (1, 1); (1, 1); (1, 1)] /\
+  nth 3 (mobservations W C MW MC (minit W C MW 7) [MInit W 1 2; MEval W 5 250; MInit W 3 4; MEval W 5 250]) (MNone W MW)
+    = nth 1 (mobservations W C MW MC (minit W C MW 7) [MInit W 3 4; MEval W 5 250]) (MNone W MW) /\
+  nth 1 (mobservations W C MW MC (minit W C MW 7) [MInit W 1 2; MEval W 5 250]) (MNone W MW)
+    <> nth 1 (mobservations W C MW MC (minit W C MW 7) [MInit W 3 4; MEval W 5 250]) (MNone W MW).
+Proof. repeat split; try (vm_compute; reflexivity). vm_compute. discriminate. Qed.
